@@ -90,7 +90,7 @@ int hx_in_child(void (*fn)(void *arg, FILE *o), void *arg, char *outbuf, size_t 
     return 2;
 }
 
-static const hx_op *const tables[] = { ops_c14, ops_c16, ops_c15, ops_c03, ops_c04, ops_c09, ops_c01, ops_c18, ops_c17, ops_c20, ops_c10, ops_c05, ops_c13, ops_c08, ops_c19, ops_c11, NULL };
+static const hx_op *const tables[] = { ops_c14, ops_c16, ops_c15, ops_c03, ops_c04, ops_c09, ops_c01, ops_c18, ops_c17, ops_c20, ops_c10, ops_c05, ops_c13, ops_c08, ops_c19, ops_c11, ops_c12, NULL };
 
 /* run one op line (modified in place by strtok) and print exactly one line to `o` */
 void hx_dispatch(char *line, FILE *o) {
